@@ -212,6 +212,11 @@ def replay_behaviour(hist, geom, jax, jnp):
     return None
 
 
+def geom_like(m, data):
+    """a multi-image with m's dimension / boundary flags and the given blocks (same storage order)"""
+    return m.__class__(data, m.D, m.is_torus)
+
+
 def check_losses(st, a, b, si):
     """compare the real losses with the spec's integer numerators / declared denominators"""
     import jax.numpy as jnp
@@ -232,6 +237,27 @@ def check_losses(st, a, b, si):
     if np.sum(rows == rows.max()) == 1:          # arg-max well defined
         if not close(ml.timestep_smse_loss(a, b, S, reduce="max"), steps[int(np.argmax(rows))]):
             return "timestep_smse_loss(max)"
+    # reduce="max" is only pinned down when different batch entries are worst at different steps (an element-wise maximum over
+    # the batch coincides with the worst entry's row otherwise): rescale the error of entry i at step s by an integer w[i][s] --
+    # the per-step numerators scale by w^2 exactly -- so that entry 0 / 1 are worst at single steps and the last entry in total
+    if B >= 2 and S >= 2 and steps.min() > 0:
+        W = np.full((B, S), 3.0)
+        W[0, :] = 1.0
+        W[0, 0] = 4.0
+        if B >= 3:
+            W[1, :] = 1.0
+            W[1, 1] = 4.0
+        b2 = geom_like(a, {t: a[t] + jnp.asarray(W[:, np.arange(a[t].shape[1]) % S].reshape(a[t].shape[:2] + (1,) * (a[t].ndim - 2)),
+                                                   dtype=a[t].dtype) * (b[t] - a[t]) for t in a.keys()})
+        steps2 = steps * W ** 2
+        if not close(ml.timestep_smse_loss(a, b2, S, reduce=None), steps2, rt=1e-5):
+            return "timestep_smse_loss(reduce=None) on step-wise rescaled errors"
+        rows2 = steps2.sum(axis=1)
+        if np.sum(rows2 == rows2.max()) == 1:
+            want2 = steps2[int(np.argmax(rows2))]
+            st["_max_discriminating"] = bool(np.any(steps2.max(axis=0) != want2))
+            if not close(ml.timestep_smse_loss(a, b2, S, reduce="max"), want2, rt=1e-5):
+                return "timestep_smse_loss(max): not the per-step losses of the batch entry with the largest total"
     for eps in (2.0 ** -10, None):
         e32 = np.float64(np.float32(1e-5 if eps is None else eps))
         want = np.mean([sum(n / (d + e32) for n, d in terms) / npix for terms in st["norm"]])
